@@ -64,7 +64,7 @@ impl Prop for Sem {
             },
             Which::C03 => EvidenceSpec {
                 level: "exploration",
-                rule: format!("{SPACE}and every single-point perturbation of every type-directed program up to 5 nodes (quick) / of every size (thorough) (at every subterm position, annotations included, the subterm replaced by an atom of each class: 0, true, int, a function; one argument of a spine dropped), and the type-pair family (ordered pairs of the smallest generated types and of all definition groups denoting types meeting at an argument, at the branches of a conditional and at an annotated definition; the same for open types under two type parameters with a type-level function whose body is a group; types that are conditionals stuck on a boolean or integer parameter; pairs of terms of five kinds under an opaque type constructor with one and two indexes): each member is well typed iff its two types / terms are convertible; and the late-hole family (2580 programs in which a parameter without annotation gets its type fixed under further binders and definition groups). For every program the real front end accepts, the elaborated term must be closed and the independent reference checker must derive for it a type convertible with the reported one. non-trivial = accepted programs confirmed by the reference"),
+                rule: format!("{SPACE}and every single-point perturbation of every type-directed program up to 5 nodes (quick) / of every size (thorough) (at every subterm position, annotations included, the subterm replaced by an atom of each class: 0, true, int, a function; one argument of a spine dropped), and the type-pair family (ordered pairs of the smallest generated types and of all definition groups denoting types meeting at an argument, at the branches of a conditional and at an annotated definition; the same for open types under two type parameters with a type-level function whose body is a group; types that are conditionals stuck on a boolean or integer parameter; pairs of terms of five kinds under an opaque type constructor with one and two indexes): each member is well typed iff its two types / terms are convertible; and the late-hole family (5.9 k programs in which a parameter without annotation gets its type fixed under further binders and definition groups, is used at one or at two types, and is applied to an argument). For every program the real front end accepts, the elaborated term must be closed and the independent reference checker must derive for it a type convertible with the reported one. non-trivial = accepted programs confirmed by the reference"),
                 assumptions: base_assumptions,
                 evaluations: "evaluations",
                 nontrivial: "nontrivial",
